@@ -300,7 +300,7 @@ impl TlSpec {
         if self.timing.reverse {
             s += ".reverse(true)";
         }
-        s += &format!(".default_easing(/*{}*/ e{})", EASE_NAMES[self.default_easing as usize], self.default_easing);
+        s += &format!(".default_easing(/*{}*/ e({}))", EASE_NAMES[self.default_easing as usize], self.default_easing);
         for kf in &self.kfs {
             s += &format!("\n    .keyframe(P::keyframe({:?})", kf.pos);
             if let Some(a) = kf.a {
@@ -313,7 +313,7 @@ impl TlSpec {
                 s += &format!(".d({d:?})");
             }
             if let Some(e) = kf.easing {
-                s += &format!(".easing(/*{}*/ e{})", EASE_NAMES[e as usize], e);
+                s += &format!(".easing(/*{}*/ e({}))", EASE_NAMES[e as usize], e);
             }
             s += ")";
         }
@@ -511,4 +511,53 @@ pub struct P2 {
     /// Documented, not animated.
     pub z: f32,
     pub w: u8,
+}
+
+// ------------------------------------------------------------------------------------------------
+// Plain unit-test sources for replay artefacts (no explorer, public API only)
+
+/// Common header of a generated replay test: the animated struct, the easing alphabet.
+pub const UNIT_TEST_HEADER: &str = r#"// Replay of a verification case with the public API only. Save as <mina>/tests/replay_case.rs and run
+//   cargo test --offline --test replay_case -- --nocapture
+use mina::prelude::*;
+use mina::EasingFunction;
+
+#[derive(Animate, Clone, Debug, Default, PartialEq)]
+struct P { #[animate] a: f32, #[animate] k: i32, #[animate] d: f64, #[animate] u: f32, z: f32 }
+
+#[derive(Clone, Debug)]
+struct Poly(u8);
+impl EasingFunction for Poly {
+    fn calc(&self, x: f32) -> f32 { match self.0 { 1 => x * x, 2 => 1.0 - (1.0 - x) * (1.0 - x), 3 => 0.25 + 0.5 * x, 4 => 1.0, _ => 4.0 * x * (1.0 - x) } }
+}
+fn e(id: u8) -> Easing {
+    match id { 0 => Easing::Linear, 1 => Easing::Custom(Box::new(Poly(1))), 2 => Easing::Custom(Box::new(Poly(2))), 3 => Easing::OutBack,
+               4 => Easing::Ease, 5 => Easing::InOutCubic, 6 => Easing::InQuad, _ => Easing::OutExpo }
+}
+fn p(a: u32, k: i32, d: u64, u: u32, z: u32) -> P { P { a: f32::from_bits(a), k, d: f64::from_bits(d), u: f32::from_bits(u), z: f32::from_bits(z) } }
+"#;
+
+impl P {
+    /// Bit-exact Rust expression for this value (uses the helper `p` of the test header).
+    pub fn rust_expr(&self) -> String {
+        format!("p(0x{:08x}, {}, 0x{:016x}, 0x{:08x}, 0x{:08x}) /* {:?} */", self.a.to_bits(), self.k, self.d.to_bits(), self.u.to_bits(), self.z.to_bits(), self)
+    }
+}
+
+/// A complete test that builds the timeline, optionally substitutes a start value, evaluates at `t` into
+/// `init`, prints the result and runs the given assertion lines (which may refer to `got` and `before`).
+pub fn timeline_unit_test(spec: &TlSpec, start: Option<&P>, t: f32, init: &P, asserts: &[String]) -> String {
+    let mut s = String::from(UNIT_TEST_HEADER);
+    s += "\n#[test]\nfn replay_case() {\n";
+    s += &format!("    let mut tl = {};\n", spec.rust_source().replace('\n', "\n    "));
+    if let Some(st) = start {
+        s += &format!("    tl.start_with(&{});\n", st.rust_expr());
+    }
+    s += &format!("    let before = {};\n    let mut got = before.clone();\n    tl.update(&mut got, f32::from_bits(0x{:08x})); // t = {:?}\n", init.rust_expr(), t.to_bits(), t);
+    s += "    println!(\"{:?}\", got);\n    let _ = &tl;\n";
+    for a in asserts {
+        s += &format!("    {a}\n");
+    }
+    s += "}\n";
+    s
 }
